@@ -707,6 +707,11 @@ func manyRegionsHistory() History {
 		Req{Kind: "list", Key: lo, End: hi},
 		Req{Kind: "list", Key: manyKey(10), End: manyKey(145)},
 		Req{Kind: "list", Key: manyKey(100), End: manyKey(148)},
+		// bounds strictly inside a region (between two keys): the outermost partitions must be clipped to the request
+		Req{Kind: "list", Key: append(manyKey(10), 'x'), End: append(manyKey(145), 'x')},
+		Req{Kind: "count", Key: append(manyKey(10), 'x'), End: append(manyKey(145), 'x')},
+		Req{Kind: "stream", Key: append(manyKey(20), 'x'), End: append(manyKey(30), 'x')},
+		Req{Kind: "list", Key: append(manyKey(138), 'x'), End: append(manyKey(139), 'x')},
 		Req{Kind: "list", Key: lo, End: hi, Limit: 140},
 		Req{Kind: "count", Key: lo, End: hi},
 		Req{Kind: "stream", Key: lo, End: hi},
